@@ -71,33 +71,6 @@ def mergeBack (caller child : State) : State :=
     heap := child.heap, steps := child.steps, trace := child.trace,
     modules := if caller.modules.size ≥ caller.numModules then child.modules else caller.modules }
 
-/-- `Run` with a given loop (same text as `runFrom`, which is `runWith (loopF F)`) -/
-def runWith (L : Nat → State → Except Exc (Option Unit) × State) (fuel : Nat) (globals : V) (args : List V) (s0 : State) :
-    Outcome × State :=
-  match (prologue globals args).run.run s0 with
-  | (.error (.panic m), s) => (.goPanic m, s)
-  | (.error (.unsupported m), s) => (.unsupported m, s)
-  | (.ok (), s) => go fuel fuel s
-where
-  go (reruns fuel : Nat) (s : State) : Outcome × State :=
-    match reruns with
-    | 0 => (.outOfFuel, s)
-    | reruns+1 =>
-      match L fuel s with
-      | (.ok none, s) => (.outOfFuel, s)
-      | (.ok (some ()), s) =>
-        match clearCurrentFrame.run.run s with
-        | (_, s) => runFrom.finish s
-      | (.error (.unsupported m), s) => (.unsupported m, s)
-      | (.error (.panic m), s) =>
-        if s.noPanic then
-          match (handlePanic m).run.run s with
-          | (.error (.panic m'), s) => (.goPanic m', s)
-          | (.error (.unsupported m'), s) => (.unsupported m', s)
-          | (.ok (), s) =>
-            if s.err.isNone then go reruns (fuel - s.steps) s else runFrom.finish s
-        else (.goPanic m, s)
-
 /-- configuration of the Go host functions of the `invoke` stream -/
 structure HostCfg where
   pooled : Bool
